@@ -1,6 +1,7 @@
 package drv
 
 import (
+	"sync"
 	"fmt"
 	"math/rand"
 	"net"
@@ -185,6 +186,28 @@ func (i *Inst) RunOidc(s *OiScript, tw *TraceWriter, rng *rand.Rand) error {
 			mutated = string(bts)
 		case "trunc":
 			mutated = val[:1+s.Pos%(len(val)-1)]
+		case "anonymous":
+			// the session cookie of another browser that was sent to the identity provider but never came back: it is
+			// presented right after the logged-in session above was used, and again
+			ab := i.NewBrowser("", "")
+			if _, err := ab.Get(i.BaseURL() + "/connect"); err != nil {
+				return err
+			}
+			for _, c := range ab.C.Jar.Cookies(u) {
+				if c.Name == "RDPGWSESSION" {
+					mutated = c.Value
+				}
+			}
+			for k := 0; k < 3; k++ {
+				if hh, err := b.Get(i.BaseURL() + "/connect"); err != nil || hh.Status != 200 {
+					return fmt.Errorf("logged-in session stopped working")
+				}
+				xb := i.NewBrowser("", "")
+				xb.C.Jar.SetCookies(u, []*http.Cookie{{Name: "RDPGWSESSION", Value: mutated, Path: "/"}})
+				if hh, err := xb.Get(i.BaseURL() + "/connect"); err == nil && hh.Status == 200 {
+					break // the last request below shows it again
+				}
+			}
 		case "empty":
 			mutated = ""
 		case "garbage":
@@ -230,6 +253,8 @@ func (i *Inst) RunOidc(s *OiScript, tw *TraceWriter, rng *rand.Rand) error {
 		tw.Line(M{"ev": "cookie", "script": s.ID, "cls": s.Mut, "store": store, "mut": s.Mut, "status": h.Status, "authed": authed, "sameUser": same, "changed": mutated != val})
 	case "connect":
 		return i.runConnect(s, tw, rng, store, user)
+	case "burst":
+		return i.runBurst(s, tw, rng, store)
 	default:
 		return fmt.Errorf("unknown kind %q", s.Kind)
 	}
@@ -385,8 +410,15 @@ func (i *Inst) runConnect(s *OiScript, tw *TraceWriter, rng *rand.Rand, store, u
 		if cfg.Split {
 			wantUser = strings.SplitN(user, "@", 2)[0]
 		}
+		wantDomain := ""
+		if cfg.Split {
+			if p := strings.SplitN(user, "@", 2); len(p) == 2 {
+				wantDomain = p[1]
+			}
+		}
+		domainOk := f["domain"] == wantDomain
 		ev["claimHostIsFileHost"] = fmt.Sprint(claims["remoteServer"]) == f["full address"]
-		ev["claimUserOk"] = fmt.Sprint(claims["sub"]) == wantUser && (cfg.NoUser || f["username"] == wantUser || cfg.Template != "")
+		ev["claimUserOk"] = fmt.Sprint(claims["sub"]) == wantUser && (cfg.NoUser || f["username"] == wantUser || cfg.Template != "") && (cfg.NoUser || domainOk)
 		ev["claimAddr"] = fmt.Sprint(claims["clientIp"])
 		ev["claimAtIsSession"] = fmt.Sprint(claims["accessToken"]) == sessionAT && sessionAT != ""
 		gwHost := strings.TrimPrefix(strings.TrimPrefix(i.BaseURL(), "http://"), "https://")
@@ -438,4 +470,91 @@ func (i *Inst) replayFile(fullAddress, tok, peerIP, xff string) bool {
 	r, e := t.Step(tsgu.ChannelCreate(host, uint16(port)))
 	// accepted by the gateway's own checks = a connection attempt was made (the host itself may be down)
 	return e == nil && len(r.Dials) == 1
+}
+
+
+// runBurst: several logged-in sessions (different users, hosts and client addresses) download at the same time; every
+// file must name its own session's user and host and carry its own session's claims.
+func (i *Inst) runBurst(s *OiScript, tw *TraceWriter, rng *rand.Rand, store string) error {
+	cfg := i.Cfg
+	type sess struct {
+		b     *Browser
+		user  string
+		at    string
+		host  []string
+		xff   string
+		param string
+	}
+	users := []string{"alice@corp.example", "bob", "carol@lab.example", "dave", "erin@corp.example", "frank"}
+	var ss []*sess
+	for k, u := range users {
+		x := &sess{user: u, xff: fmt.Sprintf("10.7.%d.%d", k, k+1)}
+		x.b = i.NewBrowser("", x.xff)
+		l := loginFor("ok", u)
+		x.b.LoginID = i.IdP.Register(l)
+		x.host = cfg.Hosts[k%len(cfg.Hosts)]
+		x.param = url.QueryEscape(i.Conc(x.host))
+		hops, err := x.b.Connect("host="+x.param, 6)
+		if err != nil || len(hops) == 0 || hops[len(hops)-1].Status != 200 {
+			return fmt.Errorf("burst: login of %s failed", u)
+		}
+		x.at = l.AccessToken
+		x.b.LoginID = ""
+		ss = append(ss, x)
+	}
+	rounds := 25
+	type res struct {
+		k    int
+		body string
+		st   int
+	}
+	out := make(chan res, len(ss)*rounds)
+	var wg sync.WaitGroup
+	for k, x := range ss {
+		wg.Add(1)
+		go func(k int, x *sess) {
+			defer wg.Done()
+			for r := 0; r < rounds; r++ {
+				h, err := x.b.Get(i.BaseURL() + "/connect?host=" + x.param)
+				if err != nil {
+					out <- res{k, "", -1}
+					continue
+				}
+				out <- res{k, h.Body, h.Status}
+			}
+		}(k, x)
+	}
+	wg.Wait()
+	close(out)
+	hosts := cfg.Hosts
+	for r := range out {
+		x := ss[r.k]
+		wantUser := x.user
+		wantDomain := ""
+		if cfg.Split {
+			if p := strings.SplitN(x.user, "@", 2); len(p) == 2 {
+				wantUser, wantDomain = p[0], p[1]
+			}
+		}
+		ev := M{"ev": "connect", "script": s.ID, "cls": cfg.Sel + ".authed.burst", "store": store, "session": "authed", "sel": cfg.Sel, "hosts": hosts,
+			"param": [][]string{x.host}, "qOk": false, "qSub": []string{}, "user": []string{x.user}, "status": r.st, "toIdp": false, "hasToken": strings.Contains(r.body, "gatewayaccesstoken"),
+			"xff": xffList(x.xff), "peer": addrRec("127.0.0.1"), "fileHost": []string{}, "claimHostIsFileHost": false, "claimUserOk": false, "claimAddr": "", "claimAtIsSession": false,
+			"gatewayNamed": false, "replayed": false, "tunnelAccepted": false, "expIn": 0}
+		if r.st == 200 {
+			f, _ := ParseRDP(r.body)
+			claims, _ := forge.PayloadClaims(f["gatewayaccesstoken"])
+			ev["fileHost"] = i.Abs(f["full address"], append([][]string{{x.user}}, cfg.Hosts...))
+			ev["claimHostIsFileHost"] = fmt.Sprint(claims["remoteServer"]) == f["full address"]
+			ev["claimUserOk"] = fmt.Sprint(claims["sub"]) == wantUser && f["username"] == wantUser && f["domain"] == wantDomain
+			ev["claimAddr"] = fmt.Sprint(claims["clientIp"])
+			ev["claimAtIsSession"] = fmt.Sprint(claims["accessToken"]) == x.at
+			gwHost := strings.TrimPrefix(strings.TrimPrefix(i.BaseURL(), "http://"), "https://")
+			ev["gatewayNamed"] = f["gatewayhostname"] == gwHost
+			if v, ok := claims["exp"].(float64); ok {
+				ev["expIn"] = int(int64(v) - time.Now().Unix())
+			}
+		}
+		tw.Line(ev)
+	}
+	return nil
 }
